@@ -10,7 +10,7 @@ statement's preconditions hold."""
 import itertools
 import numpy as np
 from pmc.refs import filters as rf
-from pmc.engine.tol import alg_err, maxabs, mag
+from pmc.engine.tol import alg_err, exact_equal, maxabs, mag
 
 PROPERTY = 'C09'
 RULE = ("lattice: grid x (radius | explicit odd kernel from a named table) x boundary-mode tuple over "
@@ -438,12 +438,18 @@ class Acc:
 
 def run_fields(m, fields):
     """Feed every field through ONE module instance (fresh per configuration); returns the outputs row-wise."""
-    Y = []
+    Y, held = [], []
     for _, x in fields:
         m.sig_in[0].state = x.copy()
         m.response()
+        held.append(m.sig_out[0].state)          # the object handed out (kept by the caller, e.g. a design history)
         Y.append(np.array(m.sig_out[0].state, dtype=float, copy=True))
+    # a filtered field returned earlier stays the filtered field of ITS design when the module is used again
+    CHANGED[:] = [i for i, (h, y) in enumerate(zip(held, Y)) if not exact_equal(np.asarray(h, dtype=float), y)]
     return Y
+
+
+CHANGED = []
 
 
 def compare_rows(Y, Yref):
@@ -565,6 +571,9 @@ def exec_fc(case):
             if wk.shape != w3.shape or not np.array_equal(wk, w3):
                 res['kernel_findings'].append(('fc_kernel_stored', {'weights': wk, 'given': w3}))
         Y = run_fields(m, fields)
+        if CHANGED:
+            res['kernel_findings'].append(('earlier_output_changed',
+                                           {'fields_whose_returned_output_changed_later': [fields[i][0] for i in CHANGED]}))
         A, c = rf.conv_operator(grid, kernel, modes, ref_ovr, 'after')
         Yref = [A @ x + c for _, x in fields]
         res['nchecks'] += len(fields)
@@ -720,6 +729,9 @@ def exec_df(case):
         acc.checks += len(fields)
         acc.nontrivial = acc.nontrivial or (r > 1 and n > 1)
         acc.keys.append(f"DF|{grid}|{size}|{r}")
+        if CHANGED:
+            acc.bad('earlier_output_changed', {'module': 'DensityFilter'},
+                    {'radius': r, 'fields_whose_returned_output_changed_later': [fields[i][0] for i in CHANGED]}, nc)
         i, err, bnd = compare_rows(Y, Yref)
         units = 'elements'
         if i is not None and not unit:
